@@ -60,13 +60,22 @@ def build_cfg(repo, tier):
     return cfg
 
 
-def _init(repo, cfg, isolation):
+def _init(repo, cfg, isolation, counter, fork_workers):
+    # the first `fork_workers` workers to start use process isolation for every
+    # run and baseline (they never execute pycparser themselves: true zygotes)
+    if counter is not None:
+        with counter.get_lock():
+            i = counter.value
+            counter.value += 1
+        if i < fork_workers:
+            isolation = "fork"
     runner.init_worker(repo, cfg, isolation)
 
 
-def make_pool(repo, cfg, workers, isolation="reimport"):
+def make_pool(repo, cfg, workers, isolation="reimport", fork_workers=0):
     ctx = mp.get_context("fork")
-    return cf.ProcessPoolExecutor(max_workers=workers, mp_context=ctx, initializer=_init, initargs=(repo, cfg, isolation))
+    counter = ctx.Value("i", 0) if fork_workers else None
+    return cf.ProcessPoolExecutor(max_workers=workers, mp_context=ctx, initializer=_init, initargs=(repo, cfg, isolation, counter, fork_workers))
 
 
 # --------------------------------------------------------------------------
@@ -117,6 +126,7 @@ class Agg:
         self.digests = {}
         self.faulty_runs = 0
         self.sweep_runs = 0
+        self.fork_runs = 0
         self.wall_sum = 0.0
 
     def add(self, s):
@@ -133,6 +143,7 @@ class Agg:
         self.wall_sum += s["wall"]
         self.faulty_runs += 1 if s.get("faulty") else 0
         self.sweep_runs += 1 if s.get("sweep") else 0
+        self.fork_runs += 1 if s.get("isolation") == "fork" else 0
         for k, v in s["probes"].items():
             self.probes[k] = self.probes.get(k, 0) + v
         for k, v in s["fired"].items():
@@ -184,6 +195,7 @@ def write_evidence(prop, tier, seed, agg, wall, det, extra_assumptions=()):
         "seeds": {"VERIF_SEED": seed, "runs": "run i uses PRNG H('run', property, VERIF_SEED, i), i = 0..%d" % max(0, agg.runs - 1)},
         "faults_fired": dict(sorted(agg.fired.items())),
         "systematic_sweep": {"cases_total": sweep.n_cases(prop), "cases_run": agg.sweep_runs, "what": "enumerated fault points (C12: truncation / seam-abort / abandoned lexer at every token boundary of every construct snippet, line-abort ladder) or pre-emption points (C13: A runs k steps, B runs to completion, A finishes, for every k; generator / visitor pairs at line granularity with stride 9); a quick run covers a seed-dependent slice, a thorough run all of them"},
+        "isolation": {"runs_on_fresh_module_sets": agg.runs - agg.fork_runs, "runs_with_every_execution_in_a_freshly_forked_process": agg.fork_runs, "note": "a few workers never execute pycparser themselves and fork a pristine child for the run and for each baseline; this covers state a change might park outside the pycparser modules"},
         "fault_injecting_runs": agg.faulty_runs,
         "fault_free_runs": agg.runs - agg.faulty_runs,
         "probes": dict(sorted(agg.probes.items())),
@@ -287,7 +299,8 @@ def cmd_check(args):
     print("check %s tier=%s VERIF_SEED=%d repo=%s workers=%d budget=%.0fs engine=%d" % (prop, tier, seed, repo, workers, budget, ENGINE_VERSION))
     sys.stdout.flush()
     agg = Agg()
-    pool = make_pool(repo, cfg, workers)
+    fork_workers = 0 if workers < 4 else (2 if tier == "quick" else 3)
+    pool = make_pool(repo, cfg, workers, fork_workers=fork_workers)
     nxt = 0
     pending = set()
     stop = False
